@@ -442,6 +442,9 @@ fn explore_sched(ctx: &Ctx) {
                             serde_json::to_string(&c).unwrap(), rec.log, rec2.log);
                     }
                 }
+                if rec.diverged {
+                    return trace;
+                }
                 ctx.eval();
                 ctx.add_transitions(rec.steps as u64);
                 ctx.count(if rec.spill_files_created == 0 { "sched_runs_without_spill" } else if rec.spill_files_created == 1 { "sched_runs_with_1_spill_file" } else { "sched_runs_with_2+_spill_files" }, 1);
@@ -468,6 +471,10 @@ fn explore_sched(ctx: &Ctx) {
         );
         if !stats.complete {
             ctx.mark_capped("wall cap hit during schedule exploration");
+        }
+        if stats.diverged > 0 {
+            ctx.count("sched_replays_that_diverged", stats.diverged);
+            ctx.mark_capped("some replays diverged from their prefix (nondeterminism inside the operator); their subtrees were not explored");
         }
         if std::env::var("C10_TIMING").is_ok() {
             eprintln!("scenario pool={:?} rotate={} drop={} preserve={} n_in={} : {} executions in {:.1}s", sc.pool_limit, sc.rotate, sc.allow_drop, sc.preserve_order, sc.inputs.len(), stats.executions, t0.elapsed().as_secs_f64());
